@@ -22,6 +22,9 @@ pub enum GOp {
     MarkerOff(u8),
     MarkerOn(u8),
     Remark(u8),
+    /// second relationship type (only with `Case::owners`)
+    Own(u8, u8),
+    Disown(u8),
 }
 
 #[derive(Clone, Debug, Serialize, Deserialize)]
@@ -40,6 +43,9 @@ pub struct Case {
     pub track: bool,
     pub n: u8,
     pub rounds: Vec<Round>,
+    /// a second relationship (`OwnedBy`) is registered for synchronized replication as well
+    #[serde(default)]
+    pub owners: bool,
 }
 
 fn payload_len(raw: u16, m: usize) -> u16 {
@@ -75,6 +81,14 @@ fn groups(sim: &Sim) -> Vec<BTreeSet<usize>> {
             }
         }
     }
+    for s in 0..n {
+        if let Some(q) = sim.owners[s] {
+            if sim.slots[s].is_some() && sim.slots[q].is_some() && sim.marked[s] && sim.marked[q] {
+                let (a, b) = (find(&mut parent, s), find(&mut parent, q));
+                parent[a] = b;
+            }
+        }
+    }
     let mut by: BTreeMap<usize, BTreeSet<usize>> = BTreeMap::new();
     for s in 0..n {
         if sim.slots[s].is_some() && sim.marked[s] {
@@ -87,6 +101,8 @@ fn groups(sim: &Sim) -> Vec<BTreeSet<usize>> {
 
 fn sync(sim: &mut Sim, rounds: usize) {
     for _ in 0..rounds {
+        // (rounds driven from here are steps of the history, too: the F23 exclusion compares step clocks)
+        sim.clock += 1;
         sim.lockstep_round();
     }
 }
@@ -110,11 +126,18 @@ pub fn run(c: &Case) -> Outcome {
         children: true,
         children_any_vis: true,
         sync: true,
+        owners: c.owners,
         track: c.track,
         slots: n,
         ..Cfg::default()
     };
     let mut sim = Sim::new(&cfg, Oracles { values: true, ..Default::default() });
+    if c.owners {
+        // Visibility is re-assigned group-wise only after the graph operations of a round; in between a shadow client can
+        // see an entity without its owner, and Bevy strips a relationship whose target is despawned on that client. The
+        // probe sees everything at all times: values are judged there.
+        sim.values_only = Some(vec![P]);
+    }
     for i in 0..nclients {
         sim.connect(i);
     }
@@ -135,6 +158,8 @@ pub fn run(c: &Case) -> Outcome {
                 GOp::MarkerOff(a) => Step::Marker { slot: a as usize % n, on: false },
                 GOp::MarkerOn(a) => Step::Marker { slot: a as usize % n, on: true },
                 GOp::Remark(a) => Step::Remark { slot: a as usize % n },
+                GOp::Own(a, b) => Step::SetOwner { slot: a as usize % n, owner: b as usize % n },
+                GOp::Disown(a) => Step::DelOwner { slot: a as usize % n },
             };
             let before = sim.world_ops;
             sim.step(&st);
@@ -213,6 +238,12 @@ pub fn run(c: &Case) -> Outcome {
                 let a = mutated_groups[0];
                 let b = mutated_groups[1];
                 let lp = lens(&sim, pair);
+                if std::env::var("VH_DEBUG").is_ok() {
+                    for ci in 0..nclients {
+                        eprintln!("client {ci}: {:?}", sim.clients[ci].s2c[1].iter().map(|m| m.bytes.to_vec()).collect::<Vec<_>>());
+                    }
+                    eprintln!("groups {gs:?} mutated_groups {mutated_groups:?} unit_len {unit_len:?} pair {lp:?} probe {p_lens:?} owners {:?} parents {:?}", sim.owners, sim.parents);
+                }
                 if let (Some(&la), Some(&lb), [lab]) = (unit_len.get(&a), unit_len.get(&b), lp.as_slice()) {
                     let h = (la + lb) as i64 - *lab as i64;
                     if h <= 0 || h > 16 {
@@ -323,6 +354,8 @@ fn gop() -> impl Strategy<Value = GOp> {
         1 => (0u8..6).prop_map(GOp::MarkerOff),
         1 => (0u8..6).prop_map(GOp::MarkerOn),
         2 => (0u8..6).prop_map(GOp::Remark),
+        5 => (0u8..6, 0u8..6).prop_map(|(a, b)| GOp::Own(a, b)),
+        1 => (0u8..6).prop_map(GOp::Disown),
     ]
 }
 
@@ -334,7 +367,8 @@ fn case_strategy() -> impl Strategy<Value = Case> {
         any::<bool>(),
     )
         .prop_map(|(graph, muts, deliver, drop_rest)| Round { graph, muts, deliver, drop_rest });
-    (prop_oneof![40u16..200, 40u16..1400], any::<bool>(), 2u8..=6, proptest::collection::vec(round, 1..3)).prop_map(|(m, track, n, rounds)| Case { m, track, n, rounds })
+    (prop_oneof![40u16..200, 40u16..1400], any::<bool>(), 2u8..=6, proptest::collection::vec(round, 1..3), any::<bool>())
+        .prop_map(|(m, track, n, rounds, owners)| Case { m, track, n, rounds, owners })
 }
 
 pub struct C10;
